@@ -211,6 +211,7 @@ func c13sBody(w *c13World, sc c13sScn) func(x *vs.Exec) {
 			f.ids.Close()
 			f.sub.Close()
 			f.host.Close()
+			f.ps.Close() // (the address book's collector goroutine would otherwise outlive the bubble: ~20 kB per execution)
 		})
 		s.Drain()
 	}
